@@ -436,7 +436,10 @@ class SamplerCore:
 
     def _get_distribute_func(self):
         """Get distribution function (map or pool.map)."""
-        if self.config.pool is None:
+        if self.config.pool is None or (
+            isinstance(self.config.pool, int) and self.config.pool <= 1
+        ):
+            # no pool, or an integer pool of one process: evaluate serially
             return map
         elif isinstance(self.config.pool, int) and self.config.pool > 1:
             from multiprocess import Pool
